@@ -988,6 +988,163 @@ def rule_r5(chk, p, t):
         r.guard(cons, one)
 
 
+def rule_r6(chk, p, t):
+    r = chk.rule(
+        "C18.R6",
+        "the agent installs a started multiple-model filter and takes the surviving model back",
+        4,
+        "the adaptive filter announces its closure on ITSELF (flag ADAPTIVE_ESTIMATION_CLOSE + converged_filter, set by "
+        "_resumeSequentialFiltering - also when it closes on the update run inside initialize()), and the agent looks for "
+        "that flag on `self.nominal_filter` only.  So: (a) in EstimateAgent._beginAdaptiveEstimation the filter built by "
+        "adaptiveEstimationFactory is installed by `_resetFilter(<that filter>)` whenever its initialize() returned true - "
+        "the installation is control-dependent on that result alone; (b) _handleMMAE tests the CLOSE flag of "
+        "`self.nominal_filter` AFTER the call that may start adaptive estimation (a closure in the same step is seen), "
+        "and under it installs `self.nominal_filter.converged_filter` and clears the flag; (c) _update reaches _handleMMAE "
+        "whenever adaptive estimation is configured and there are observations",
+        "which model survives (R5) and its numbers",
+    )
+    ag = p.cls("resonaate.agents.estimate_agent.EstimateAgent")
+    begin, handle, upd = ag.methods.get("_beginAdaptiveEstimation"), ag.methods.get("_handleMMAE"), ag.methods.get("_update")
+    require(begin is not None and handle is not None and upd is not None, "EstimateAgent._beginAdaptiveEstimation / _handleMMAE / _update not found", ag.node)
+
+    def truth_atoms(test, lab):
+        """[(atom text, polarity)] that are certainly implied by `test` evaluating to `lab` (conjunction on True, disjunction on
+        False); None for an atom whose value is not fixed."""
+        if isinstance(test, ast.UnaryOp) and isinstance(test.op, ast.Not):
+            return truth_atoms(test.operand, not lab)
+        if isinstance(test, ast.BoolOp) and ((isinstance(test.op, ast.And) and lab) or (isinstance(test.op, ast.Or) and not lab)):
+            out = []
+            for v in test.values:
+                out += truth_atoms(v, lab)
+            return out
+        if isinstance(test, ast.Call) and call_name(test) == "bool" and len(test.args) == 1:
+            return truth_atoms(test.args[0], lab)
+        return [(unparse(test), lab)]
+
+    def a():
+        cfg = cfg_of(begin)
+        defs = single_defs(begin.node)
+        made = [n for n, v in defs.items() if isinstance(v, ast.Call) and call_name(v) == "adaptiveEstimationFactory"]
+        require(len(made) == 1, "the adaptive filter is not built by one adaptiveEstimationFactory(...) call bound to a local", begin.node)
+        flt = made[0]
+        inits = [c for c in find_calls(begin.node, "initialize") if unparse(c.func.value) == flt]
+        require(len(inits) == 1, f"{flt}.initialize(...) is not called exactly once", begin.node)
+        started = [n for n, v in defs.items() if v is inits[0]]
+        installs = [c for c in find_calls(begin.node, "_resetFilter") if len(c.args) == 1 and unparse(c.args[0]) == flt]
+        cons = begin.qualname + ":install"
+        if not installs:
+            r.violation(cons, "started-filter-not-installed", f"`{flt}` is never handed to _resetFilter: a started multiple-model filter is discarded", begin.loc())
+            return
+        init_node = cfg.node_of(inits[0])
+        before = {cid for cid, _ in cfg.control_conditions(init_node.id)}
+        extra, seen_started = [], False
+        for c in installs:
+            for cid, lab in cfg.control_conditions(cfg.node_of(c).id):
+                if cid in before:
+                    continue
+                for txt, pol in truth_atoms(cfg.nodes[cid].ast, lab):
+                    if (started and txt == started[0]) or txt == unparse(inits[0]):
+                        seen_started = seen_started or pol is True
+                        if pol is not True:
+                            extra.append(f"not {txt}")
+                    else:
+                        extra.append(txt if pol else f"not ({txt})")
+        others = [c for c in find_calls(begin.node, "_resetFilter") if c not in installs and any(isinstance(x, ast.Name) and x.id == flt for x in ast.walk(c))]
+        if extra and others:
+            raise Undecided(f"the started filter is installed under `{' and '.join(extra)[:80]}` and `{unparse(others[0])[:60]}` runs elsewhere: another closing protocol", others[0])
+        if extra:
+            r.violation(cons, "started-filter-dropped:" + ";".join(e[:50] for e in extra), f"`_resetFilter({flt})` runs only when additionally `{' and '.join(extra)[:120]}`: a filter whose initialize() returned true is then NOT installed, yet it is the only object that carries the CLOSE flag and the surviving model (a filter that closes on the update inside initialize() is silently discarded and the agent keeps the pre-manoeuvre filter)", begin.loc(installs[0]))
+        elif not seen_started:
+            r.violation(cons, "installed-unstarted", f"`_resetFilter({flt})` does not depend on the result of initialize(): a filter that could not start (no models) replaces the nominal filter", begin.loc(installs[0]))
+        else:
+            r.ok(cons, f"_resetFilter({flt}) control-dependent on the result of initialize() alone", begin.loc(installs[0]))
+
+    def b():
+        cfg = cfg_of(handle)
+        cons = handle.qualname + ":close"
+        closes = [n for n in cfg.nodes.values() if n.kind == "cond" and "ADAPTIVE_ESTIMATION_CLOSE" in unparse(n.ast)] if isinstance(cfg.nodes, dict) else [n for n in cfg.nodes if n.kind == "cond" and "ADAPTIVE_ESTIMATION_CLOSE" in unparse(n.ast)]
+        require(len(closes) == 1, "one test of ADAPTIVE_ESTIMATION_CLOSE expected in _handleMMAE", handle.node)
+        cl = closes[0]
+        tst = cl.ast
+        ok_test = isinstance(tst, ast.Compare) and len(tst.ops) == 1 and isinstance(tst.ops[0], ast.In) and unparse(tst.comparators[0]) == "self.nominal_filter.flags"
+        bad = []
+        if not ok_test:
+            raise Undecided(f"closure test `{unparse(tst)[:80]}`", tst)
+        starts = find_calls(handle.node, "_beginAdaptiveEstimation")
+        require(len(starts) >= 1, "_handleMMAE does not call _beginAdaptiveEstimation", handle.node)
+        for sc in starts:
+            sn = cfg.node_of(sc)
+            if sn.id in cfg.reachable(cl.id) - {cl.id}:
+                bad.append("the CLOSE flag is tested BEFORE adaptive estimation may be started in the same call: a filter that closes on its first update keeps the flag (and the mixture filter stays installed) until the next observed step")
+        resets = [c for c in find_calls(handle.node, "_resetFilter")]
+        good = [c for c in resets if len(c.args) == 1 and unparse(inline_locals(handle, c.args[0])) == "self.nominal_filter.converged_filter" and (cl.id, True) in cfg.control_conditions(cfg.node_of(c).id)]
+        if not good:
+            bad.append("under the CLOSE flag the agent does not install `self.nominal_filter.converged_filter`")
+        cleared = False
+        for n in walk_no_nested(handle.node):
+            if isinstance(n, ast.AugAssign) and unparse(n.target) == "self.nominal_filter.flags" and "ADAPTIVE_ESTIMATION_CLOSE" in unparse(n.value) and isinstance(n.op, (ast.BitXor, ast.BitAnd)):
+                node = cfg.node_of(n)
+                if (cl.id, True) in cfg.control_conditions(node.id):
+                    cleared = True
+                    # the flag must be cleared on the mixture filter, i.e. before the nominal filter is replaced
+                    for c in good:
+                        if node.id in cfg.reachable(cfg.node_of(c).id) - {cfg.node_of(c).id}:
+                            bad.append("the flag is cleared after the filter was replaced - on the new filter, which never carried it")
+        if not cleared:
+            bad.append("the CLOSE flag is not cleared under the test")
+        if bad:
+            r.violation(cons, "close-protocol:" + ";".join(b_[:40] for b_ in bad), "; ".join(bad), handle.loc(tst))
+        else:
+            r.ok(cons, "CLOSE tested on self.nominal_filter after the start attempt; converged_filter installed; flag cleared", handle.loc(tst))
+
+    def c():
+        cfg = cfg_of(upd)
+        calls = find_calls(upd.node, "_handleMMAE")
+        cons = upd.qualname + ":handle"
+        if not calls:
+            r.violation(cons, "mmae-not-handled", "_update never calls _handleMMAE: a closed multiple-model filter is never replaced by the surviving model", upd.loc())
+            return
+        atoms = []
+        for cid, lab in cfg.control_conditions(cfg.node_of(calls[0]).id):
+            atoms += truth_atoms(cfg.nodes[cid].ast, lab)
+        allowed = {("self.adaptive_filter_config", True), (upd.params[1], True), (f"len({upd.params[1]}) > 0", True), (f"len({upd.params[1]}) == 0", False), ("self.adaptive_filter_config is not None", True), ("self.adaptive_filter_config is None", False)}
+        extra = [f"{'' if pol else 'not '}{txt}" for txt, pol in atoms if (txt, pol) not in allowed]
+        if extra:
+            r.violation(cons, "mmae-handling-conditional:" + ";".join(e[:40] for e in extra), f"_handleMMAE runs only when additionally `{' and '.join(extra)[:100]}`: on the other steps a closed filter is not replaced by the surviving model", upd.loc(calls[0]))
+        else:
+            r.ok(cons, f"reached whenever adaptive estimation is configured and the step has observations ({sorted(set(t_ for t_, _ in atoms))})", upd.loc(calls[0]))
+
+    r.guard(begin.qualname + ":install", a)
+    r.guard(handle.qualname + ":close", b)
+    r.guard(upd.qualname + ":handle", c)
+    # the filter side of the protocol: the hand-over raises the flag and builds the converged filter
+    af = p.cls(AF)
+    rs = af.methods.get("_resumeSequentialFiltering")
+
+    def d():
+        require(rs is not None, "_resumeSequentialFiltering not found", af.node)
+        cfg = cfg_of(rs)
+        sets = [n for n in walk_no_nested(rs.node) if isinstance(n, ast.AugAssign) and unparse(n.target) == "self.flags" and isinstance(n.op, ast.BitOr) and "ADAPTIVE_ESTIMATION_CLOSE" in unparse(n.value)]
+        conv = [n for n in walk_no_nested(rs.node) if isinstance(n, ast.Assign) and unparse(n.targets[0]) == "self._converged_filter"]
+        cons = rs.qualname + ":announce"
+        bad = []
+        if not sets or any(cfg.control_conditions(cfg.node_of(n).id) for n in sets[:1]):
+            bad.append("the CLOSE flag is not raised unconditionally")
+        if not conv or any(cfg.control_conditions(cfg.node_of(n).id) for n in conv[:1]):
+            bad.append("the converged filter is not built unconditionally")
+        prop = af.methods.get("converged_filter") or next((m for m in af.methods.values() if m.name == "converged_filter"), None)
+        if prop is not None:
+            rets = [n for n in walk_no_nested(prop.node) if isinstance(n, ast.Return) and n.value is not None]
+            if not (len(rets) == 1 and unparse(rets[0].value) == "self._converged_filter"):
+                bad.append(f"the converged_filter property returns `{unparse(rets[0].value) if rets else None}`")
+        if bad:
+            r.violation(cons, "announce:" + ";".join(b_[:40] for b_ in bad), "; ".join(bad), rs.loc())
+        else:
+            r.ok(cons, "flag raised and converged filter built on every path of the hand-over", rs.loc())
+
+    r.guard("announce", d)
+
+
 def run(chk, p, t):
     chk.explanation = (
         "Static decision of structural necessary conditions of C18: (R1/R2) a path-sensitive typestate "
@@ -999,7 +1156,7 @@ def run(chk, p, t):
         "documented expressions. NOT decided: Bayes-rule values, underflow beyond the reset, PSD-ness."
     )
     chk.assumptions += ["a normalising form w / sum(w) yields weights summing to one when the sum is finite and non-zero", "numpy.delete returns a new array without the indexed element"]
-    steps = [("C18.R1", rule_r1_r2), ("C18.R3", rule_r3), ("C18.R4", rule_r4), ("C18.R5", rule_r5)]
+    steps = [("C18.R1", rule_r1_r2), ("C18.R3", rule_r3), ("C18.R4", rule_r4), ("C18.R5", rule_r5), ("C18.R6", rule_r6)]
     for rid, fn in steps:
         if chk.only_rule is not None and chk.only_rule != rid and not (chk.only_rule == "C18.R2" and rid == "C18.R1"):
             continue
